@@ -164,8 +164,7 @@ NoVal == <<>>
 Res(v, p, why, val) == [v |-> v, p |-> p, why |-> why, val |-> val, cl |-> ""]
    \* cl: "" or what a reader that does NOT clamp a field's data length to the enclosing node says about the first such field ("R" / "RB")
 Miss(need, p, lim, bend) ==     \* something that is needed does not fit: inside the buffer -> RB, beyond it -> R
-   IF "budget_is_buffer" \in Wrong THEN (IF need <= bend - p THEN "ok" ELSE "R")
-   ELSE IF need <= lim - p THEN "ok" ELSE IF need <= bend - p THEN "RB" ELSE "R"
+   IF need <= lim - p THEN "ok" ELSE IF need <= bend - p THEN "RB" ELSE "R"
 Fail(need, p, lim, bend, why) == Res(Miss(need, p, lim, bend), p, why, NoVal)
 Fits(need, p, lim, bend) == Miss(need, p, lim, bend) = "ok"
 Weaker(x, y) == IF x = "" THEN y ELSE IF y = "" THEN x ELSE IF "RB" \in {x, y} THEN "RB" ELSE "R"
@@ -184,7 +183,7 @@ RdVar(b, q, pe, bend, k, isStr, open, acc) ==      \* k items still to read; ope
    IF k = 0 THEN (IF open \/ q = pe THEN Res("A", q, "", acc) ELSE Res("E", q, "slack-after-items", NoVal))
    ELSE IF ~Fits(4, q, pe, bend) THEN Fail(4, q, pe, bend, "item-length-word-missing")
    ELSE LET l == V(b, q) IN
-        IF ~Fits(l, q+4, pe, bend) THEN Fail(l, q+4, pe, bend, "item-overruns")
+        IF ~Fits(l, q+4, IF "item_budget_is_buffer" \in Wrong THEN bend ELSE pe, bend) THEN Fail(l, q+4, pe, bend, "item-overruns")
         ELSE IF isStr /\ l = 0 THEN Res("E", q, "string-item-of-zero-bytes", NoVal)
         ELSE IF isStr /\ b[q+4+l] # 0 THEN Res("E", q, "string-item-without-nul", NoVal)
         ELSE LET s == Bytes(b, q+4, IF isStr THEN l-1 ELSE l) IN
@@ -367,19 +366,29 @@ ZeroMenu == <<
    [what |-> W(33), fields |-> <<[name |-> Nm(1), tc |-> W(TC.message), items |-> <<>>]>>] >>
 
 Big(n) == Rep(65, n)
-PairMenu == [j \in 1..(Len(FixedTypes) * 4) |->
-               LET t == FixedTypes[((j-1) \div 4) + 1]  k == (j-1) % 4 IN
-               Msg(100+j, <<Fld(Nm(1), t, Items(t, 2)),
-                            CASE k = 0 -> Fld(Nm(2), "string", <<Str1>>) [] k = 1 -> Fld(Nm(2), "message", <<S1>>)
-                              [] k = 2 -> Fld(Nm(2), "raw", <<<<1, 2>>, <<>>>>) [] k = 3 -> Fld(Nm(2), "int32", Items("int32", 1))>>)]
+AllTypes == FixedTypes \o <<"string", "raw", "blob", "message">>
+ItemsOf(t, n) == CASE t = "string"  -> SubSeq(<<Str1, <<>>, Str2>>, 1, n)
+                   [] t = "raw"     -> SubSeq(<<<<1, 2>>, <<>>, <<3>>>>, 1, n)
+                   [] t = "blob"    -> SubSeq(<<<<>>, <<4, 5, 6>>, <<7>>>>, 1, n)
+                   [] t = "message" -> SubSeq(<<S1, E0, S2>>, 1, n)
+                   [] OTHER         -> Items(t, n)
+(* thorough: every ordered pair of field types in one Message; every type one and two levels down *)
+PairMenu == [j \in 1..(Len(AllTypes) * Len(AllTypes)) |->
+               LET t1 == AllTypes[((j-1) \div Len(AllTypes)) + 1]  t2 == AllTypes[((j-1) % Len(AllTypes)) + 1] IN
+               Msg(100+j, <<Fld(Nm(1), t1, ItemsOf(t1, 2)), Fld(Nm(2), t2, ItemsOf(t2, 1 + (j % 3)))>>)]
+NestMenu == [j \in 1..(2 * Len(AllTypes)) |->
+               LET t == AllTypes[((j-1) % Len(AllTypes)) + 1]  in1 == Msg(j, <<Fld(Nm(3), t, ItemsOf(t, 2))>>) IN
+               IF j <= Len(AllTypes) THEN Msg(300+j, <<Fld(Nm(1), "message", <<in1>>), Fld(Nm(2), "int8", Items("int8", 1))>>)
+               ELSE Msg(300+j, <<Fld(Nm(1), "message", <<Msg(9, <<Fld(Nm(2), "message", <<in1, E0>>)>>)>>)>>)]
 BigMenu == <<
    Msg(41, <<Fld(Nm(1), "raw", <<Big(2100)>>)>>),
    Msg(42, <<Fld(Nm(1), "string", <<Big(2030)>>), Fld(Nm(2), "message", <<S2>>)>>),
    Msg(43, <<Fld(Nm(1), "message", <<Msg(1, <<Fld(Nm(1), "raw", <<Big(2040)>>)>>), S1>>)>>) >>
 
-Menu == CASE MENU = "tiny"     -> <<E0, S2, N2, ZeroMenu[2]>>
+Menu == CASE MENU = "one"      -> <<S1>>
+          [] MENU = "tiny"     -> <<E0, S2, N2, ZeroMenu[2]>>
           [] MENU = "quick"    -> FixedMenu(<<1, 2, 3>>) \o VarMenu \o MsgMenu \o MixMenu \o ZeroMenu \o <<BigMenu[3]>>
-          [] MENU = "thorough" -> FixedMenu(<<1, 2, 3>>) \o VarMenu \o MsgMenu \o MixMenu \o ZeroMenu \o PairMenu \o BigMenu
+          [] MENU = "thorough" -> FixedMenu(<<1, 2, 3>>) \o VarMenu \o MsgMenu \o MixMenu \o ZeroMenu \o PairMenu \o NestMenu \o BigMenu
 Canonical(m) == \A i \in 1..Len(m.fields) : m.fields[i].items # <<>>      \* only ZeroMenu is not
 NBase == Len(Menu)
 Mine == {i \in 1..NBase : i >= LO /\ i <= HI}
